@@ -12,6 +12,7 @@ func checkC01(c *Ctx) {
 	ruleCursorPair(c)
 	ruleBufForward(c)
 	rulePadStart(c)
+	ruleFillLast(c)
 	ruleProvOffsets(c)
 	ruleWSSpec(c)
 	ruleLineCountStep(c)
